@@ -100,6 +100,8 @@ def cases(tier, seed):
                 if mode == 'file':
                     yield dict(code=0x0001, dsize=70, maxlen=46, comp='seeded', mode=mode,
                                state=st, seed=seed, pcid=pcid, rival=True)
+                    yield dict(code=0x0001, dsize=70, maxlen=46, comp='seeded', mode=mode,
+                               state=st, seed=seed + pcid, pcid=pcid, offset=True)
                 if st == 'Sta6':
                     # the same while the local user keeps handing over outgoing messages
                     yield dict(code=0x0001, dsize=70, maxlen=46, comp='seeded', mode=mode,
@@ -120,7 +122,7 @@ def cases(tier, seed):
         yield dict(code=code, dsize=dsize, maxlen=maxlen, comp='seeded', mode=mode,
                    state=rnd.choice(['Sta6', 'Sta6', 'Sta7']), seed=seed * 100003 + i, fault=fault,
                    pcid=rnd.choice([1, 3, 5]), duplex=rnd.random() < 0.3,
-                   rival=rnd.random() < 0.3)
+                   rival=rnd.random() < 0.3, offset=rnd.random() < 0.3)
 
 
 def run_case(case):
@@ -240,9 +242,27 @@ def _one(case, comp, fields, cmd, data, pdvs, pcid, rnd):
                                 funcs={'write_meta', 'get_file'},
                                 files=('applicationentity.py',))
         pre.install()
+    START = {'n': 0}
+    get_file_cb = ae.get_file
+    if case.get('offset') and file_mode:
+        # the application keeps its own storage file: earlier content in front, and the
+        # documented second return value ("file starting position") is not zero
+        START['n'] = 37 + case['seed'] % 400
+
+        def get_file_cb(ctx, command_set):      # noqa: F811
+            from pynetdicom2 import applicationentity as _ae
+            fp = rig.world.fs.tempfile_ns().TemporaryFile()
+            try:
+                fp.write(b'E' * START['n'])
+                start = fp.tell()
+                _ae.write_meta(fp, command_set, ctx.supported_ts)
+            except Exception:
+                fp.close()      # as AEBase.get_file does: the callback owns the file until it returns
+                raise
+            return fp, start
     try:
         rig = Rig('c07/%s/%s' % (case['seed'], '.'.join(map(str, comp))), role=role,
-                  store_in_file={CT} if file_mode else set(), get_file_cb=ae.get_file,
+                  store_in_file={CT} if file_mode else set(), get_file_cb=get_file_cb,
                   with_fs=True)
     except BaseException:
         if pre is not None:
@@ -354,7 +374,7 @@ def _one(case, comp, fields, cmd, data, pdvs, pcid, rnd):
                     break
                 delivered_at = gi
                 _check_msg(v, inds[0], code, fields, data, pcid, file_mode and code == 0x0001 and
-                           data is not None, ts_uid, fsobj)
+                           data is not None, ts_uid, fsobj, START['n'])
                 if rig.sm.dimse_decoder is not None:
                     v('decoder-kept-after-completion', '')
                 if gi != len(comp) - 1:
@@ -388,7 +408,7 @@ def _ret(rig, viol, extra):
             'vsecs': sim.now - 1000.0}
 
 
-def _check_msg(v, item, code, fields, data, pcid, as_file, ts_uid, fsobj):
+def _check_msg(v, item, code, fields, data, pcid, as_file, ts_uid, fsobj, start=0):
     from pynetdicom2 import dimsemessages
     msg, got_pcid = item
     if got_pcid != pcid:
@@ -419,9 +439,9 @@ def _check_msg(v, item, code, fields, data, pcid, as_file, ts_uid, fsobj):
         v('not-file-backed', 'data_set is %s' % type(ds).__name__)
         return
     try:
-        if ds.tell() != 0:
-            v('file-position-not-at-start', 'tell() = %d' % ds.tell())
-        content = bytes(ds.data)
+        if ds.tell() != start:
+            v('file-position-not-at-start', 'tell() = %d, get_file said %d' % (ds.tell(), start))
+        content = bytes(ds.data)[start:]
         meta, off = _read_meta(content)
     except Exception as e:  # pylint: disable=broad-except
         v('file-not-a-readable-part10-file', repr(e))
